@@ -67,9 +67,9 @@ template <class P> inline void readPay(const P* p, uint8_t& has, uint8_t& seed, 
 	for (unsigned i = 0; i < sizeof(P); ++i) if (raw[i] != payByte(seed, i)) exact = 0;
 }
 
-struct Ctx { int tag = 0; };
 struct EvA { int v; };
 struct EvB { int v; int w; };
+struct Ctx { int tag = 0; EvA mailA{0}; EvB mailB{0, 0}; };   // the mail slots let react()/query() be handed an event stored in the context
 
 // ---- world ------------------------------------------------------------------------------------
 struct World {
@@ -200,14 +200,27 @@ template <int CFG> struct Runner;
 template <int CFG, int I, int KIND> struct StT;   // KIND 0: every callback, 1: none, 2 / 3: complementary halves
 template <int CFG> struct Hd;
 
+// one configuration alias per step; the order in which a zoo member applies them is a permutation chosen by its id, so that
+// every alias is exercised with non-default settings already present on its left-hand side
+template <class C, class Z, int K> struct CfgStep;
+template <class C, class Z> struct CfgStep<C, Z, 0> { using type = typename WithCtx<C, Z::CTX>::type; };
+template <class C, class Z> struct CfgStep<C, Z, 1> { using type = typename WithManual<C, Z::IS_MANUAL>::type; };
+template <class C, class Z> struct CfgStep<C, Z, 2> { using type = typename C::template SubstitutionLimitN<Z::L>; };
+template <class C, class Z> struct CfgStep<C, Z, 3> { using type = typename WithCap<C, Z::CAP>::type; };
+template <class C, class Z> struct CfgStep<C, Z, 4> { using type = typename WithPay<C, typename Z::Payload>::type; };
+constexpr int cfgOrder(int cfg, int pos) {   // rotation by cfg % 5, reversed for every other block of five members
+	const int base = (cfg / 5) % 2 == 0 ? pos : 4 - pos;
+	return (base + cfg % 5) % 5;
+}
+
 template <int CFG, class Seq> struct RootOf;
 template <int CFG, size_t... Is> struct RootOf<CFG, std::index_sequence<Is...>> {
 	using Z = ZCfg<CFG>;
-	using C1 = typename WithCtx<ffsm2::Config, Z::CTX>::type;
-	using C2 = typename WithManual<C1, Z::IS_MANUAL>::type;
-	using C3 = typename C2::template SubstitutionLimitN<Z::L>;
-	using C4 = typename WithCap<C3, Z::CAP>::type;
-	using C5 = typename WithPay<C4, typename Z::Payload>::type;
+	using C1 = typename CfgStep<ffsm2::Config, Z, cfgOrder(CFG, 0)>::type;
+	using C2 = typename CfgStep<C1, Z, cfgOrder(CFG, 1)>::type;
+	using C3 = typename CfgStep<C2, Z, cfgOrder(CFG, 2)>::type;
+	using C4 = typename CfgStep<C3, Z, cfgOrder(CFG, 3)>::type;
+	using C5 = typename CfgStep<C4, Z, cfgOrder(CFG, 4)>::type;
 	using M = ffsm2::MachineT<C5>;
 	using type = typename std::conditional<Z::HAS_HEAD,
 		typename M::template Root<Hd<CFG>, StT<CFG, int(Is), Z::kind(int(Is))>...>,
@@ -224,29 +237,50 @@ template <int CFG> struct Zoo {
 	using GuardControl = typename FSM::GuardControl; using FullControl = typename FSM::FullControl; \
 	using ConstControl = typename FSM::ConstControl; using PlanControl = typename FSM::State::PlanControl;
 
-#define VF_CB_ENTRY_GUARD(SID, WHO) void entryGuard(GuardControl& c) { Runner<CFG>::cb(c, SID, M_ENTRY_GUARD, WHO, thisOk(), nullptr); }
-#define VF_CB_ENTER(SID, WHO) void enter(PlanControl& c) { Runner<CFG>::cb(c, SID, M_ENTER, WHO, thisOk(), nullptr); }
-#define VF_CB_REENTER(SID, WHO) void reenter(PlanControl& c) { Runner<CFG>::cb(c, SID, M_REENTER, WHO, thisOk(), nullptr); }
-#define VF_CB_PRE_UPDATE(SID, WHO) void preUpdate(FullControl& c) { Runner<CFG>::cb(c, SID, M_PRE_UPDATE, WHO, thisOk(), nullptr); }
-#define VF_CB_UPDATE(SID, WHO) void update(FullControl& c) { Runner<CFG>::cb(c, SID, M_UPDATE, WHO, thisOk(), nullptr); }
-#define VF_CB_POST_UPDATE(SID, WHO) void postUpdate(FullControl& c) { Runner<CFG>::cb(c, SID, M_POST_UPDATE, WHO, thisOk(), nullptr); }
-#define VF_CB_PRE_REACT(SID, WHO) template <class E> void preReact(const E& e, FullControl& c) { Runner<CFG>::cb(c, SID, M_PRE_REACT, WHO, thisOk(), &e); }
-#define VF_CB_REACT(SID, WHO) template <class E> void react(const E& e, FullControl& c) { Runner<CFG>::cb(c, SID, M_REACT, WHO, thisOk(), &e); }
-#define VF_CB_POST_REACT(SID, WHO) template <class E> void postReact(const E& e, FullControl& c) { Runner<CFG>::cb(c, SID, M_POST_REACT, WHO, thisOk(), &e); }
-#define VF_CB_QUERY(SID, WHO) template <class E> void query(E& e, ConstControl& c) const { Runner<CFG>::cb(c, SID, M_QUERY, WHO, thisOk(), &e); }
-#define VF_CB_EXIT_GUARD(SID, WHO) void exitGuard(GuardControl& c) { Runner<CFG>::cb(c, SID, M_EXIT_GUARD, WHO, thisOk(), nullptr); }
-#define VF_CB_EXIT(SID, WHO) void exit(PlanControl& c) { Runner<CFG>::cb(c, SID, M_EXIT, WHO, thisOk(), nullptr); }
+#define VF_CB_ENTRY_GUARD(SID, WHO) VF_VIRT void entryGuard(GuardControl& c) noexcept { Runner<CFG>::cb(c, SID, M_ENTRY_GUARD, WHO, thisOk(), nullptr, ++seen); }
+#define VF_CB_ENTER(SID, WHO) VF_VIRT void enter(PlanControl& c) noexcept { Runner<CFG>::cb(c, SID, M_ENTER, WHO, thisOk(), nullptr, ++seen); }
+#define VF_CB_REENTER(SID, WHO) VF_VIRT void reenter(PlanControl& c) noexcept { Runner<CFG>::cb(c, SID, M_REENTER, WHO, thisOk(), nullptr, ++seen); }
+#define VF_CB_PRE_UPDATE(SID, WHO) VF_VIRT void preUpdate(FullControl& c) noexcept { Runner<CFG>::cb(c, SID, M_PRE_UPDATE, WHO, thisOk(), nullptr, ++seen); }
+#define VF_CB_UPDATE(SID, WHO) VF_VIRT void update(FullControl& c) noexcept { Runner<CFG>::cb(c, SID, M_UPDATE, WHO, thisOk(), nullptr, ++seen); }
+#define VF_CB_POST_UPDATE(SID, WHO) VF_VIRT void postUpdate(FullControl& c) noexcept { Runner<CFG>::cb(c, SID, M_POST_UPDATE, WHO, thisOk(), nullptr, ++seen); }
+#define VF_CB_PRE_REACT(SID, WHO) template <class E> void preReact(const E& e, FullControl& c) { Runner<CFG>::cb(c, SID, M_PRE_REACT, WHO, thisOk(), &e, ++seen); }
+#define VF_CB_REACT(SID, WHO) template <class E> void react(const E& e, FullControl& c) { Runner<CFG>::cb(c, SID, M_REACT, WHO, thisOk(), &e, ++seen); }
+#define VF_CB_POST_REACT(SID, WHO) template <class E> void postReact(const E& e, FullControl& c) { Runner<CFG>::cb(c, SID, M_POST_REACT, WHO, thisOk(), &e, ++seen); }
+#define VF_CB_QUERY(SID, WHO) template <class E> void query(E& e, ConstControl& c) const { Runner<CFG>::cb(c, SID, M_QUERY, WHO, thisOk(), &e, ++seen); }
+#define VF_CB_EXIT_GUARD(SID, WHO) VF_VIRT void exitGuard(GuardControl& c) noexcept { Runner<CFG>::cb(c, SID, M_EXIT_GUARD, WHO, thisOk(), nullptr, ++seen); }
+#define VF_CB_EXIT(SID, WHO) VF_VIRT void exit(PlanControl& c) noexcept { Runner<CFG>::cb(c, SID, M_EXIT, WHO, thisOk(), nullptr, ++seen); }
 
+// every scripted object counts the callbacks delivered to it in a data member of its own (state-local data: a copy of the machine must carry it along)
+#define VF_LOCAL mutable uint16_t seen = 0; EvA inboxA{0}; EvB inboxB{0, 0};
+#define VF_VIRT
 #define VF_CALLBACKS(SID, WHO) \
 	VF_CB_ENTRY_GUARD(SID, WHO) VF_CB_ENTER(SID, WHO) VF_CB_REENTER(SID, WHO) VF_CB_PRE_UPDATE(SID, WHO) VF_CB_UPDATE(SID, WHO) VF_CB_POST_UPDATE(SID, WHO) \
 	VF_CB_PRE_REACT(SID, WHO) VF_CB_REACT(SID, WHO) VF_CB_POST_REACT(SID, WHO) VF_CB_QUERY(SID, WHO) VF_CB_EXIT_GUARD(SID, WHO) VF_CB_EXIT(SID, WHO)
 
+// members 5 and 17 declare the (non-template) callbacks of their injections virtual: the state's own callbacks then override them, and the
+// library must still reach each injection's own implementation
+template <int CFG> struct ZVirt { static constexpr bool value = CFG == 5 || CFG == 17; };
+
+template <int CFG, int I, int J, bool VIRT = ZVirt<CFG>::value> struct Inj;
 template <int CFG, int I, int J>
-struct Inj : Zoo<CFG>::FSM::State {
+struct Inj<CFG, I, J, false> : Zoo<CFG>::FSM::State {
 	VF_FSM_TYPES(CFG)
 	bool thisOk() const;
+	VF_LOCAL
 	VF_CALLBACKS(I, J)
 };
+#undef VF_VIRT
+#define VF_VIRT virtual
+template <int CFG, int I, int J>
+struct Inj<CFG, I, J, true> : Zoo<CFG>::FSM::State {
+	VF_FSM_TYPES(CFG)
+	bool thisOk() const;
+	VF_LOCAL
+	VF_CALLBACKS(I, J)
+	virtual ~Inj() = default;
+};
+#undef VF_VIRT
+#define VF_VIRT
 
 template <int CFG, int I, int K> struct StBase;
 template <int CFG, int I> struct StBase<CFG, I, 0> { using type = typename Zoo<CFG>::FSM::State; };
@@ -258,22 +292,34 @@ template <int CFG, int I>
 struct StT<CFG, I, 0> : StBase<CFG, I, ZCfg<CFG>::inj(I)>::type {
 	VF_FSM_TYPES(CFG)
 	bool thisOk() const;
+	VF_LOCAL
 	VF_CALLBACKS(I, WHO_SELF)
+	uint32_t localSum() const {   // own counter and the counters of the injections this object derives from
+		uint32_t h = seen;
+		if constexpr (ZCfg<CFG>::inj(I) >= 1) h = h * 31 + static_cast<const Inj<CFG, I, 0>*>(this)->seen;
+		if constexpr (ZCfg<CFG>::inj(I) >= 2) h = h * 31 + static_cast<const Inj<CFG, I, 1>*>(this)->seen;
+		if constexpr (ZCfg<CFG>::inj(I) >= 3) h = h * 31 + static_cast<const Inj<CFG, I, 2>*>(this)->seen;
+		return h;
+	}
 };
 template <int CFG, int I>
-struct StT<CFG, I, 1> : Zoo<CFG>::FSM::State {};
+struct StT<CFG, I, 1> : Zoo<CFG>::FSM::State { VF_LOCAL uint32_t localSum() const { return seen; } };
 // states that define only half of the callbacks (no injections): which method records a non-verbose logger emits depends on exactly which ones exist
 template <int CFG, int I>
 struct StT<CFG, I, 2> : Zoo<CFG>::FSM::State {
 	VF_FSM_TYPES(CFG)
 	bool thisOk() const;
+	VF_LOCAL
 	VF_CB_ENTRY_GUARD(I, WHO_SELF) VF_CB_REENTER(I, WHO_SELF) VF_CB_PRE_UPDATE(I, WHO_SELF) VF_CB_POST_UPDATE(I, WHO_SELF) VF_CB_REACT(I, WHO_SELF) VF_CB_EXIT(I, WHO_SELF)
+	uint32_t localSum() const { return seen; }
 };
 template <int CFG, int I>
 struct StT<CFG, I, 3> : Zoo<CFG>::FSM::State {
 	VF_FSM_TYPES(CFG)
 	bool thisOk() const;
+	VF_LOCAL
 	VF_CB_ENTER(I, WHO_SELF) VF_CB_UPDATE(I, WHO_SELF) VF_CB_PRE_REACT(I, WHO_SELF) VF_CB_POST_REACT(I, WHO_SELF) VF_CB_QUERY(I, WHO_SELF) VF_CB_EXIT_GUARD(I, WHO_SELF)
+	uint32_t localSum() const { return seen; }
 };
 static constexpr uint16_t DEF_A = (1u << M_ENTRY_GUARD) | (1u << M_REENTER) | (1u << M_PRE_UPDATE) | (1u << M_POST_UPDATE) | (1u << M_REACT) | (1u << M_EXIT);
 static constexpr uint16_t DEF_B = (1u << M_ENTER) | (1u << M_UPDATE) | (1u << M_PRE_REACT) | (1u << M_POST_REACT) | (1u << M_QUERY) | (1u << M_EXIT_GUARD);
@@ -283,11 +329,18 @@ template <int CFG>
 struct Hd : StBase<CFG, HEAD_TAG, ZCfg<CFG>::headInj()>::type {
 	VF_FSM_TYPES(CFG)
 	bool thisOk() const;
+	VF_LOCAL
 	VF_CALLBACKS(NOID, WHO_SELF)
 #ifdef VF_PLANS
-	void planSucceeded(FullControl& c) { Runner<CFG>::cb(c, NOID, M_PLAN_SUCCEEDED, WHO_SELF, thisOk(), nullptr); }
-	void planFailed(FullControl& c) { Runner<CFG>::cb(c, NOID, M_PLAN_FAILED, WHO_SELF, thisOk(), nullptr); }
+	void planSucceeded(FullControl& c) { Runner<CFG>::cb(c, NOID, M_PLAN_SUCCEEDED, WHO_SELF, thisOk(), nullptr, ++seen); }
+	void planFailed(FullControl& c) { Runner<CFG>::cb(c, NOID, M_PLAN_FAILED, WHO_SELF, thisOk(), nullptr, ++seen); }
 #endif
+	uint32_t localSum() const {
+		uint32_t h = seen;
+		if constexpr (ZCfg<CFG>::headInj() >= 1) h = h * 31 + static_cast<const Inj<CFG, HEAD_TAG, 0>*>(this)->seen;
+		if constexpr (ZCfg<CFG>::headInj() >= 2) h = h * 31 + static_cast<const Inj<CFG, HEAD_TAG, 1>*>(this)->seen;
+		return h;
+	}
 };
 
 
@@ -484,6 +537,20 @@ struct Runner {
 		snapshotPlan(m, e);
 #endif
 	}
+	template <size_t... Is> static uint32_t localAll(Instance& m, std::index_sequence<Is...>) {
+		uint32_t h = 0;
+		const uint32_t each[] = {m.template access<StT<CFG, int(Is), Z::kind(int(Is))>>().localSum()...};
+		for (uint32_t v : each) h = h * 131 + v;
+		if constexpr (Z::HAS_HEAD) h = h * 131 + m.template access<Hd<CFG>>().localSum();
+		return h;
+	}
+	// data members of the state objects (read through access<T>()), taken at operation boundaries
+	static void observeLocal(uint8_t i, Ev& e) {
+		Slot& s = slots[i];
+		if (!s.alive || s.dead) return;
+		e.hasLocal = 1;
+		e.localSum = localAll(*ptr(i), std::make_index_sequence<N>{});
+	}
 #ifdef VF_SERIAL
 	static void observeSerial(uint8_t i, Ev& e) {
 		Slot& s = slots[i];
@@ -512,7 +579,7 @@ struct Runner {
 	}
 
 	template <class C>
-	static void cb(C& control, uint8_t state, uint8_t method, uint8_t who, bool thisOk, const void* evt) {
+	static void cb(C& control, uint8_t state, uint8_t method, uint8_t who, bool thisOk, const void* evt, uint16_t local) {
 		constexpr uint8_t fl = flavour<C>();
 		if (++W.cbCount > W.cbBudget) {
 			W.tr->budgetAbort = true; W.tr->budgetState = state; W.tr->budgetMethod = method;
@@ -522,6 +589,7 @@ struct Runner {
 		Ev& e = pushEv(EV_CB);
 		e.state = state; e.method = method; e.who = who; e.ctl = fl;
 		e.thisOk = thisOk;
+		e.local = local;
 		e.evtOk = (evt == nullptr) ? 1 : (evt == W.evtAddr);
 		// control view
 		e.sid = control.stateId();
@@ -604,12 +672,17 @@ struct Runner {
 		uint8_t kind = static_cast<uint8_t>((act.kind & ACT_KIND_MASK) % ACT_COUNT);
 		uint8_t reqDest = act.x;
 		if (kind == ACT_REQUEST_REL) { kind = ACT_REQUEST; reqDest = static_cast<uint8_t>((state == NOID ? 0 : state) + 1 + act.x % 3); }
+		const bool fwd = kind == ACT_REQUEST_FWD;   // payload handed over by reference to library-owned storage
+		if (fwd) kind = ACT_REQUEST;
 		constexpr bool full = (fl == CTL_FULL || fl == CTL_GUARD);
 		// normalise to what this control offers
 		if (kind == ACT_CANCEL && fl != CTL_GUARD) kind = ACT_NONE;
 		if ((kind == ACT_REQUEST || kind == ACT_SUCCEED_SELF || kind == ACT_FAIL_SELF || kind == ACT_SUCCEED_ID || kind == ACT_FAIL_ID) && !full) kind = ACT_NONE;
 #ifndef VF_PLANS
-		if (kind >= ACT_SUCCEED_SELF) kind = ACT_NONE;
+		if (kind >= ACT_SUCCEED_SELF && kind <= ACT_PLAN_REMOVE) kind = ACT_NONE;
+#endif
+#ifndef VF_LOG
+		if (kind == ACT_LOGGER) kind = ACT_NONE;
 #endif
 		if (state == NOID && kind == ACT_SUCCEED_SELF) kind = ACT_SUCCEED_ID;  // the head has no own id (asserted precondition)
 		if (state == NOID && kind == ACT_FAIL_SELF) kind = ACT_FAIL_ID;
@@ -627,6 +700,26 @@ struct Runner {
 		case ACT_REQUEST:
 			if constexpr (full) {
 				a.a = normState(reqDest);
+				if (fwd) {
+					if constexpr (HAS_PAY) {
+						const Payload* src = nullptr;
+						switch (act.y % 4) {
+						case 1: if constexpr (fl == CTL_GUARD) { src = control.pendingTransition().payload(); break; } [[fallthrough]];
+						case 0: src = control.request().payload(); break;
+						case 2: src = control.currentTransition().payload(); break;
+						default:
+#ifdef VF_HISTORY
+							src = control.previousTransitions().payload();
+#else
+							src = control.request().payload();
+#endif
+							break;
+						}
+						if (src) { uint8_t has, seed, exact, aligned; readPay(src, has, seed, exact, aligned); a.c = seed; control.changeWith(a.a, *src); }
+						else control.changeTo(a.a);
+					} else control.changeTo(a.a);
+					break;
+				}
 				if constexpr (HAS_PAY) {
 					a.c = act.pay;
 					if (act.pay) { if (tmplForm) Tmpl<CFG>::call(control, a.a, 4, act.pay); else control.changeWith(a.a, makePay<Payload>(act.pay)); }
@@ -637,6 +730,15 @@ struct Runner {
 		case ACT_CANCEL:
 			if constexpr (fl == CTL_GUARD) control.cancelPendingTransition();
 			break;
+#ifdef VF_LOG
+		case ACT_LOGGER:
+			a.a = act.x & 1;
+			if (W.opts.loggerMode == 0) {   // (the logger-independence shadow runs keep their fixed attachment; the action stays in the trace)
+				ptr(W.cur)->attachLogger(a.a ? &logger : nullptr);
+				slots[W.cur].logger = a.a != 0;
+			}
+			break;
+#endif
 #ifdef VF_PLANS
 		case ACT_SUCCEED_SELF: if constexpr (full) { a.a = state; control.succeed(); } break;
 		case ACT_FAIL_SELF: if constexpr (full) { a.a = state; control.fail(); } break;
@@ -747,6 +849,7 @@ struct Runner {
 		W.cur = inst;
 		Ev& e = pushEv(EV_BEGIN); e.method = code; e.a = a; e.b = b; e.c = c;
 		observe(inst, e);
+		observeLocal(inst, e);
 #ifdef VF_SERIAL
 		observeSerial(inst, e);
 #endif
@@ -755,6 +858,7 @@ struct Runner {
 		W.cur = inst;
 		Ev& e = pushEv(EV_END); e.method = code; e.a = a; e.b = b; e.c = c;
 		observe(inst, e);
+		observeLocal(inst, e);
 #ifdef VF_SERIAL
 		observeSerial(inst, e);
 #endif
@@ -806,22 +910,47 @@ struct Runner {
 			begin(inst, code, 0, 0, 0);
 			ok = guarded(inst, [&] { m.update(); });
 			break;
-		case OP_REACT: {
+		case OP_REACT: case OP_QUERY: {
+			// where the event object lives: on the caller's stack, in the context object (inside the machine when the context is held by value),
+			// or in a state object inside the machine
+			uint8_t place = static_cast<uint8_t>((op.a >> 1) & 3);
+			if (place < 2 || (place == 2 && Z::CTX == 0)) place = 0;
 			op.a &= 1;
-			begin(inst, code, op.a, op.b, 0);
-			if (op.a == 0) { const EvA ev{op.b}; W.evtAddr = &ev; ok = guarded(inst, [&] { m.react(ev); }); }
-			else { const EvB ev{op.b, 7}; W.evtAddr = &ev; ok = guarded(inst, [&] { m.react(ev); }); }
-			W.evtAddr = nullptr;
-			break; }
-		case OP_QUERY: {
-			op.a &= 1;
-			begin(inst, code, op.a, op.b, 0);
-			if (op.a == 0) { EvA ev{op.b}; W.evtAddr = &ev; ok = guarded(inst, [&] { const Instance& cm = m; cm.query(ev); }); }
-			else { EvB ev{op.b, 7}; W.evtAddr = &ev; ok = guarded(inst, [&] { const Instance& cm = m; cm.query(ev); }); }
+			begin(inst, code, op.a, op.b, place);
+			EvA la{op.b}; EvB lb{op.b, 7};
+			EvA* pa = &la; EvB* pb = &lb;
+			if (place == 2) {
+				if constexpr (Z::CTX == 1 || Z::CTX == 2) { pa = &m.context().mailA; pb = &m.context().mailB; }
+				else if constexpr (Z::CTX == 3) { pa = &m.context()->mailA; pb = &m.context()->mailB; }
+			} else if (place == 3) {
+				auto& st = m.template access<StT<CFG, 0, Z::kind(0)>>();
+				pa = &st.inboxA; pb = &st.inboxB;
+			}
+			*pa = EvA{op.b}; *pb = EvB{op.b, 7};
+			if (code == OP_REACT) {
+				if (op.a == 0) { const EvA& ev = *pa; W.evtAddr = &ev; ok = guarded(inst, [&] { m.react(ev); }); }
+				else { const EvB& ev = *pb; W.evtAddr = &ev; ok = guarded(inst, [&] { m.react(ev); }); }
+			} else {
+				if (op.a == 0) { W.evtAddr = pa; ok = guarded(inst, [&] { const Instance& cm = m; cm.query(*pa); }); }
+				else { W.evtAddr = pb; ok = guarded(inst, [&] { const Instance& cm = m; cm.query(*pb); }); }
+			}
 			W.evtAddr = nullptr;
 			break; }
 		case OP_CHANGE: case OP_IMMEDIATE: {
 			op.a = normState(op.a);
+#ifdef VF_HISTORY
+			if constexpr (HAS_PAY) {
+				// hand the library a reference into its own storage: the payload of the previous transition
+				if ((W.cs->flags & 2) && (op.b & 1) && m.previousTransition().payload()) {
+					const Payload* src = m.previousTransition().payload();
+					uint8_t has, seed, exact, aligned; readPay(src, has, seed, exact, aligned);
+					begin(inst, code, op.a, 0, seed);
+					ok = guarded(inst, [&] { if (code == OP_CHANGE) m.changeWith(op.a, *src); else m.immediateChangeWith(op.a, *src); });
+					op.pay = seed;
+					break;
+				}
+			}
+#endif
 			begin(inst, code, op.a, 0, op.pay);
 			ok = guarded(inst, [&] {
 				if constexpr (HAS_PAY) {
@@ -1168,7 +1297,12 @@ template <int CFG> uint8_t Runner<CFG>::savedAct[2];
 template <int CFG> TaskV Runner<CFG>::scratch[2][260];
 #endif
 
-template <int CFG, int I, int J> bool Inj<CFG, I, J>::thisOk() const {
+template <int CFG, int I, int J> bool Inj<CFG, I, J, false>::thisOk() const {
+	using R = Runner<CFG>;
+	if constexpr (I == HEAD_TAG) return this == static_cast<const Inj*>(&R::ptr(W.cur)->template access<Hd<CFG>>());
+	else return this == static_cast<const Inj*>(&R::ptr(W.cur)->template access<StT<CFG, I, 0>>());
+}
+template <int CFG, int I, int J> bool Inj<CFG, I, J, true>::thisOk() const {
 	using R = Runner<CFG>;
 	if constexpr (I == HEAD_TAG) return this == static_cast<const Inj*>(&R::ptr(W.cur)->template access<Hd<CFG>>());
 	else return this == static_cast<const Inj*>(&R::ptr(W.cur)->template access<StT<CFG, I, 0>>());
